@@ -25,7 +25,7 @@ func VerifC20_pad_arith() {
 // unpad inverts pad for every name that does not end in a zero byte
 func VerifC20_pad_roundtrip() {
 	vUnwind(36)
-	name := vBytes("name", 0, vBound("C20_name_len", 200, 65503))
+	name := vBytes("name", 0, vBound("C20_name_len", 200, 1000))
 	vAssume(len(name) == 0 || name[len(name)-1] != 0)
 	padded := padOriginName(string(name))
 	back := unpadOriginName(padded)
